@@ -582,6 +582,13 @@ Theorem C05_float_producers2_normalized : forall B x, 2 <= B -> produced2 B x ->
 Proof. exact produced2_normalized. Qed.
 Print Assumptions C05_float_producers2_normalized.
 
+(** the function the run replays against Context::add/sub/mul/div/inv/sqrt/sqr/cubic: always normalised *)
+Theorem C05_float_fprod_normalized : forall B du dl o p m s1 e1 s2 e2 s e f, 2 <= B ->
+  FloatOrdProducers2Model.fprod_asis B du dl o p m s1 e1 s2 e2 = Ok (s, e, f) ->
+  nz B (s, e) /\ fwf (FR s e) /\ normalized_ext B (FR s e).
+Proof. exact fprod_asis_normalized. Qed.
+Print Assumptions C05_float_fprod_normalized.
+
 Theorem C05_float_eq_sound_on_producers2 : forall B digits_ub x y, 2 <= B ->
   (forall s, s <> 0 -> Z.abs s < B ^ (digits_ub s + 1)) ->
   produced2 B x -> produced2 B y ->
@@ -721,7 +728,8 @@ Print Assumptions C05_digits_ub_hypothesis.
 (** the regenerated comparison body run with the regenerated f32 digit estimate is the order of the values *)
 Theorem C05_float_cmp_with_f32_estimate : forall B, 2 <= B ->
   forall (est : Z -> f32 * f32) (best : f32 * f32),
-  (forall s, s <> 0 -> is_finite (snd (est s)) = true /\ (log2R (IZR (Z.abs s)) <= B2R (snd (est s)) <= bpow radix2 100)%R) ->
+  (forall s, s <> 0 -> Z.abs s < B ^ (2 ^ 24) ->
+     is_finite (snd (est s)) = true /\ (log2R (IZR (Z.abs s)) <= B2R (snd (est s)) <= bpow radix2 100)%R) ->
   (B <> 2 -> B <> 10 -> is_finite (fst best) = true /\ (/ 2 <= B2R (fst best) <= log2R (IZR B))%R) ->
   forall l r, fwf l -> fwf r ->
   repr_cmp_same_base_gen B (du32 B est best) false l r = fcmp_spec B l r /\
